@@ -97,7 +97,7 @@ def result_fact(cf):
     return ("exc", o["last_exception"])
 
 
-DROP = {"SUSPEND", "ATT_START", "ATT_END", "CALL_BEGIN", "CALL_END", "ADVANCE"}
+DROP = {"SUSPEND", "YIELD", "ATT_START", "ATT_END", "CALL_BEGIN", "CALL_END", "ADVANCE"}
 
 
 def normalise(trace, with_breaker):
